@@ -702,7 +702,7 @@ func (w *Worker) exec(s *State, f *Frame, in ssa.Instruction) bool {
 		}
 		k := w.eval(s, f, x.Key)
 		v := copyAgg(w.eval(s, f, x.Value))
-		if i := m.O.mapFind(k); i >= 0 {
+		if i := w.mapIndex(s, m.O, k); i >= 0 {
 			m.O.Entries[i].V = v
 		} else {
 			m.O.Entries = append(m.O.Entries, MapEntry{k, v})
@@ -873,7 +873,7 @@ func (w *Worker) lookup(s *State, f *Frame, x *ssa.Lookup) {
 		var v Value
 		found := false
 		if b.O != nil {
-			if i := b.O.mapFind(k); i >= 0 {
+			if i := w.mapIndex(s, b.O, k); i >= 0 {
 				v, found = copyAgg(b.O.Entries[i].V), true
 			}
 		}
@@ -1081,3 +1081,38 @@ func primarySolver() SolverKind {
 // primaryLimitMs is the per-query limit of the incremental primary solver; harder queries go to
 // the one-shot fallbacks with the configured (long) limit.
 const primaryLimitMs = 1500
+
+// mapIndex finds key k in a map. Keys that cannot be compared concretely (symbolic scalars) are
+// resolved by forking on equality with each candidate entry (infeasible alternatives pruned).
+func (w *Worker) mapIndex(s *State, o *Obj, k Value) int {
+	undecided := []int{}
+	for i, e := range o.Entries {
+		eq, ok := keyEq(e.K, k)
+		if ok && eq {
+			return i
+		}
+		if !ok {
+			undecided = append(undecided, i)
+		}
+	}
+	if len(undecided) == 0 {
+		return -1
+	}
+	kt, isT := k.(*Term)
+	if !isT {
+		panic(unsupported{"map look-up with a symbolic composite key"})
+	}
+	var guards []*Term
+	var none []*Term
+	for _, i := range undecided {
+		g := w.tc.Eq(o.Entries[i].K.(*Term), kt)
+		guards = append(guards, g)
+		none = append(none, w.tc.Not(g))
+	}
+	guards = append(guards, w.tc.And(none...))
+	d := w.decideAmong(s, guards, "mapkey", "")
+	if d == len(undecided) {
+		return -1
+	}
+	return undecided[d]
+}
